@@ -92,6 +92,17 @@ var c17Known = map[string]string{
 	"openBug": "MOpenBug", "closeBug": "MCloseBug", "setTitle": "MSetTitle",
 }
 
+// c17IsKnown tells whether the model has an effect for this field. VERIF_C17_FORGET=<field> makes the
+// harness treat a current mutation as one it has never seen (used to try the path taken by a
+// mutation added to the schema later).
+func c17IsKnown(field string) (string, bool) {
+	if field == os.Getenv("VERIF_C17_FORGET") {
+		return "", false
+	}
+	m, ok := c17Known[field]
+	return m, ok
+}
+
 // ---------------------------------------------------------------- introspected schema
 
 type c17TypeRef struct {
@@ -212,7 +223,7 @@ type c17State struct {
 	NObj    int         `json:"nobj"`
 	Clocks  [][2]string `json:"clocks"`
 	Git     []c17GBug   `json:"git"`
-	Cache   []c17CBug   `json:"cache"`
+	Cache   []c17CBug   `json:"cache,omitempty"`
 	Blobs   []int       `json:"blobs,omitempty"`
 	QueryOK bool        `json:"query_ok"`
 	Query   []c17QBug   `json:"query,omitempty"`
@@ -571,7 +582,7 @@ func (s *c17Sess) value(name string, t *c17TypeRef, req c17Req, con *c17Concrete
 // build makes the GraphQL document and variables for a mutation field.
 func (s *c17Sess) build(f *c17Field, req c17Req, pre *c17State) (string, map[string]interface{}, c17Concrete) {
 	con := c17Concrete{WF: true, RepoOK: req.Repo == "" || req.Repo == "__default"}
-	_, con.Known = c17Known[f.Name]
+	_, con.Known = c17IsKnown(f.Name)
 	bugPrefix, commentPrefix := s.prefixes(req, pre)
 	vars := map[string]interface{}{}
 	var decl, call []string
@@ -1035,8 +1046,38 @@ func (s *c17Sess) mutate(req c17Req, pre *c17State) (c17Resp, c17Concrete) {
 // ---------------------------------------------------------------- Coq rendering
 
 type c17Ren struct {
-	ids map[string]int
-	s   *c17Sess
+	ids   map[string]int
+	s     *c17Sess
+	pool  map[string]string
+	binds []string
+}
+
+// share binds a rendered sub-term to a let-variable once per case: texts, snapshots, bugs and whole
+// observations repeat many times (three views per observation, unchanged observations after refusals).
+func (r *c17Ren) share(prefix, term string) string {
+	if r.pool == nil {
+		r.pool = map[string]string{}
+	}
+	if v, ok := r.pool[term]; ok {
+		return v
+	}
+	v := fmt.Sprintf("%s%d", prefix, len(r.pool))
+	r.pool[term] = v
+	r.binds = append(r.binds, fmt.Sprintf("let %s := %s in ", v, term))
+	return v
+}
+func (r *c17Ren) text(x string) string {
+	if x == "" {
+		return "[]"
+	}
+	return r.share("t", coqRunes(x))
+}
+func (r *c17Ren) texts(xs []string) string {
+	ys := make([]string, len(xs))
+	for i, x := range xs {
+		ys[i] = r.text(x)
+	}
+	return coqList(ys)
 }
 
 func (r *c17Ren) id(x string) string {
@@ -1076,39 +1117,39 @@ func (r *c17Ren) idList(xs []string) string {
 func (r *c17Ren) op(o c17OpObs) string {
 	switch o.K {
 	case "create":
-		return fmt.Sprintf("OCreate %s %d%%N %s %s %s", r.id(o.Id), o.Au, coqText(o.Title), coqText(o.Msg), coqNList(o.Files))
+		return fmt.Sprintf("OCreate %s %d%%N %s %s %s", r.id(o.Id), o.Au, r.text(o.Title), r.text(o.Msg), coqNList(o.Files))
 	case "comment":
-		return fmt.Sprintf("OComment %s %d%%N %s %s", r.id(o.Id), o.Au, coqText(o.Msg), coqNList(o.Files))
+		return fmt.Sprintf("OComment %s %d%%N %s %s", r.id(o.Id), o.Au, r.text(o.Msg), coqNList(o.Files))
 	case "edit":
-		return fmt.Sprintf("OEdit %s %d%%N %s %s %s", r.id(o.Id), o.Au, r.id(o.Target), coqText(o.Msg), coqNList(o.Files))
+		return fmt.Sprintf("OEdit %s %d%%N %s %s %s", r.id(o.Id), o.Au, r.id(o.Target), r.text(o.Msg), coqNList(o.Files))
 	case "title":
-		return fmt.Sprintf("OTitle %s %d%%N %s %s", r.id(o.Id), o.Au, coqText(o.Title), coqText(o.Was))
+		return fmt.Sprintf("OTitle %s %d%%N %s %s", r.id(o.Id), o.Au, r.text(o.Title), r.text(o.Was))
 	case "status":
 		return fmt.Sprintf("OStatus %s %d%%N %s", r.id(o.Id), o.Au, coqBool(o.Closed))
 	case "labels":
-		return fmt.Sprintf("OLabels %s %d%%N %s %s", r.id(o.Id), o.Au, coqTexts(o.Added), coqTexts(o.Removed))
+		return fmt.Sprintf("OLabels %s %d%%N %s %s", r.id(o.Id), o.Au, r.texts(o.Added), r.texts(o.Removed))
 	}
 	return fmt.Sprintf("OOther %s %d%%N", r.id(o.Id), o.Au)
 }
 func (r *c17Ren) snap(s c17Snap) string {
 	cs := make([]string, len(s.Comments))
 	for i, c := range s.Comments {
-		cs[i] = fmt.Sprintf("{| cm_id := %s; cm_au := %d%%N; cm_msg := %s; cm_files := %s |}", r.id(c.Id), c.Au, coqText(c.Msg), coqNList(c.Files))
+		cs[i] = fmt.Sprintf("{| cm_id := %s; cm_au := %d%%N; cm_msg := %s; cm_files := %s |}", r.id(c.Id), c.Au, r.text(c.Msg), coqNList(c.Files))
 	}
-	return fmt.Sprintf("{| sn_closed := %s; sn_title := %s; sn_labels := %s; sn_comments := %s; sn_nops := %d; sn_actors := %s; sn_parts := %s |}",
-		coqBool(s.Closed), coqText(s.Title), coqTexts(s.Labels), coqList(cs), s.NOps, coqNList(s.Actors), coqNList(s.Parts))
+	return r.share("s", fmt.Sprintf("{| sn_closed := %s; sn_title := %s; sn_labels := %s; sn_comments := %s; sn_nops := %d; sn_actors := %s; sn_parts := %s |}",
+		coqBool(s.Closed), r.text(s.Title), r.texts(s.Labels), coqList(cs), s.NOps, coqNList(s.Actors), coqNList(s.Parts)))
 }
 func (r *c17Ren) state(st c17State, refRank, hashRank ranker, clockNames ranker) string {
 	var gs, cs, refs, clocks []string
 	for _, g := range st.Git {
 		ops := make([]string, len(g.Ops))
 		for i, o := range g.Ops {
-			ops[i] = r.op(o)
+			ops[i] = r.share("p", r.op(o))
 		}
-		gs = append(gs, fmt.Sprintf("mkg %s %s (%s)", r.id(g.Id), coqList(ops), r.snap(g.Snap)))
+		gs = append(gs, r.share("g", fmt.Sprintf("mkg %s %s %s", r.id(g.Id), coqList(ops), r.snap(g.Snap))))
 	}
 	for _, c := range st.Cache {
-		cs = append(cs, fmt.Sprintf("mkc %s %s (%s) %s %s %s %d", r.id(c.Id), r.idList(c.OpIds), r.snap(c.Snap), coqBool(c.ExClosed), coqText(c.ExTitle), coqTexts(c.ExLabels), c.ExNCom))
+		cs = append(cs, r.share("c", fmt.Sprintf("mkc %s %s %s %s %s %s %d", r.id(c.Id), r.idList(c.OpIds), r.snap(c.Snap), coqBool(c.ExClosed), r.text(c.ExTitle), r.texts(c.ExLabels), c.ExNCom)))
 	}
 	for _, p := range st.Refs {
 		refs = append(refs, fmt.Sprintf("(%d, %d)", refRank.m[p[0]], hashRank.m[p[1]]))
@@ -1124,7 +1165,7 @@ func (r *c17Ren) state(st c17State, refRank, hashRank ranker, clockNames ranker)
 		}
 		q = "(Some " + coqList(qs) + ")"
 	}
-	return fmt.Sprintf("mkos %s %s %s %d %s %s %s", coqList(gs), coqList(cs), coqList(refs), st.NObj, coqList(clocks), coqNList(st.Blobs), q)
+	return r.share("o", fmt.Sprintf("mkos %s %s %s %d %s %s %s", coqList(gs), coqList(cs), coqList(refs), st.NObj, coqList(clocks), coqNList(st.Blobs), q))
 }
 
 func c17UserTerm(mode string) string {
@@ -1212,6 +1253,9 @@ func (c17Driver) Run(raw json.RawMessage) Case {
 		changed := !c17Same(pre, so.Post)
 		if req.Auth == "none" && (changed || outcome == "ok" || outcome == "200") {
 			tagset["unauthenticated-change:"+req.Field+req.Payload] = true
+		}
+		if so.Con.WF && so.Con.Known && len(req.Files) > 0 && len(so.Resp.Errors) > 0 && so.Resp.Errors[0] == "internal system error" {
+			tagset["files-internal-error"] = true
 		}
 		if req.Field == "editComment" && outcome == "ok" && len(req.Files) > 0 {
 			for _, g := range so.Post.Git {
@@ -1305,7 +1349,7 @@ func (c17Driver) Run(raw json.RawMessage) Case {
 			reqT = fmt.Sprintf("RUpload {| u_repo_ok := %s; u_form := %s |} %s", coqBool(so.Con.RepoOK), form, u)
 			respT = fmt.Sprintf("PHttp %d %d%%N", so.Resp.HTTP, so.Resp.Blob)
 		} else {
-			if m, ok := c17Known[so.Req.Field]; ok {
+			if m, ok := c17IsKnown(so.Req.Field); ok {
 				var files []int
 				for _, f := range so.Req.Files {
 					if f < 0 {
@@ -1314,8 +1358,8 @@ func (c17Driver) Run(raw json.RawMessage) Case {
 					files = append(files, f)
 				}
 				reqT = fmt.Sprintf("RMut %s {| a_wf := %s; a_repo_ok := %s; a_prefix := %s; a_title := %s; a_msg := %s; a_files := %s; a_added := %s; a_removed := %s; a_fresh := %s |} %s",
-					m, coqBool(so.Con.WF), coqBool(so.Con.RepoOK), coqText(so.Con.Prefix), coqText(so.Req.Title), coqText(so.Req.Msg),
-					coqNList(files), coqTexts(so.Req.Added), coqTexts(so.Req.Removed), ren.idList(so.New), u)
+					m, coqBool(so.Con.WF), coqBool(so.Con.RepoOK), coqText(so.Con.Prefix), ren.text(so.Req.Title), ren.text(so.Req.Msg),
+					coqNList(files), ren.texts(so.Req.Added), ren.texts(so.Req.Removed), ren.idList(so.New), u)
 			} else {
 				reqT = "RUnknown " + u
 			}
@@ -1327,15 +1371,41 @@ func (c17Driver) Run(raw json.RawMessage) Case {
 				respT = "POkOpaque"
 			}
 		}
-		stepTerms = append(stepTerms, fmt.Sprintf("mkstep (%s) (%s) (%s)", reqT, respT, ren.state(so.Post, rr, hr, cr)))
+		stepTerms = append(stepTerms, fmt.Sprintf("mkstep (%s) (%s) %s", reqT, respT, ren.state(so.Post, rr, hr, cr)))
 	}
-	term := fmt.Sprintf("mkcase %s %s %s (%s) %s", coqList(table), coqNList(ngl), coqBool(c17CreateKeepsFiles()), ren.state(init, rr, hr, cr), coqList(stepTerms))
+	initT := ren.state(init, rr, hr, cr)
+	term := strings.Join(ren.binds, "") + fmt.Sprintf("mkcase %s %s %s %s %s", coqList(table), coqNList(ngl), coqBool(c17CreateKeepsFiles()), initT, coqList(stepTerms))
 	var tags []string
 	for t := range tagset {
 		tags = append(tags, t)
 	}
 	sort.Strings(tags)
-	obs := map[string]interface{}{"init": init, "steps": steps}
+	// the report keeps an observation only where it differs from the one before
+	type stepReport struct {
+		Req     c17Req      `json:"req"`
+		Con     c17Concrete `json:"concrete"`
+		Resp    c17Resp     `json:"resp"`
+		New     []string    `json:"new_ops,omitempty"`
+		Changed bool        `json:"changed"`
+		Post    *c17State   `json:"post,omitempty"`
+	}
+	var reports []stepReport
+	prev := init
+	for i := range steps {
+		so := steps[i]
+		so.Con.Doc = ""
+		rep := stepReport{Req: so.Req, Con: so.Con, Resp: so.Resp, New: so.New, Changed: !c17Same(prev, so.Post)}
+		if rep.Changed || !so.Post.QueryOK {
+			cp := steps[i].Post
+			if c17ViewsAgree(cp) {
+				cp.Cache, cp.Query = nil, nil // same story as the git view
+			}
+			rep.Post = &cp
+		}
+		reports = append(reports, rep)
+		prev = so.Post
+	}
+	obs := map[string]interface{}{"init": init, "steps": reports}
 	nontrivial := false
 	for _, so := range steps {
 		if so.Resp.Class == "" || so.Req.Auth == "none" {
@@ -1343,6 +1413,22 @@ func (c17Driver) Run(raw json.RawMessage) Case {
 		}
 	}
 	return Case{Coq: term, Obs: obs, Tags: tags, NonTrivial: nontrivial, Key: string(raw)}
+}
+
+// c17ViewsAgree: the cache view and the query answer carry the same snapshots as the git view.
+func c17ViewsAgree(st c17State) bool {
+	if len(st.Cache) != len(st.Git) || len(st.Query) != len(st.Git) || !st.QueryOK {
+		return false
+	}
+	for i, g := range st.Git {
+		a, _ := json.Marshal(g.Snap)
+		b, _ := json.Marshal(st.Cache[i].Snap)
+		c, _ := json.Marshal(st.Query[i].Snap)
+		if st.Cache[i].Id != g.Id || st.Query[i].Id != g.Id || !bytes.Equal(a, b) || !bytes.Equal(a, c) || len(st.Cache[i].OpIds) != len(g.Ops) {
+			return false
+		}
+	}
+	return true
 }
 
 // c17Same tells whether two observations show the same repository (refs, objects, git and cache views).
@@ -1489,9 +1575,9 @@ func (c17Driver) Gen(r *Rand, tier string) []json.RawMessage {
 	fields := c17Fields()
 	auths := []string{"none", "a", "b", "ghost"}
 	var res []json.RawMessage
-	rounds, random := 1, 60
+	rounds, random := 2, 240
 	if tier == "thorough" {
-		rounds, random = 20, 1600
+		rounds, random = 40, 4800
 	}
 	nonEmpty := func() []c17SBug {
 		for {
